@@ -905,3 +905,94 @@ func ruleRefusalNeverSuccess(e *Engine, r *Report) {
 	}
 	r.floor(rule, n, 6)
 }
+
+// rulePublishBeforeRecord (C16, C20): a snapshot is recorded in the log store
+// (ILogDB.ImportSnapshot in the import tool; the sibling order for
+// snapshotter.Commit is MPT-commit-order) only after its directory was
+// published: every call of ILogDB.ImportSnapshot outside the log store
+// packages runs after a successful FinalizeSnapshot. A crash between the two
+// steps in the other order leaves a record that names a snapshot that is not
+// on disk, with the previous raft state already wiped.
+func rulePublishBeforeRecord(e *Engine, r *Report) {
+	rule := "MPT-publish-before-record"
+	fin := r.need("(*internal/server.SSEnv).FinalizeSnapshot")
+	m := r.needMethod("raftio", "ILogDB", "ImportSnapshot")
+	if fin == nil || m == nil {
+		return
+	}
+	n := 0
+	for _, s := range e.AllMethodSites(m) {
+		fn := s.Parent()
+		p := fnPkg(fn)
+		if p == nil || !e.IsLive(outermostFn(fn)) {
+			continue
+		}
+		// the stores themselves and their wrappers forward the call
+		if rel := short(p.Path()); hasSuffix(rel, "internal/logdb") || hasSuffix(rel, "internal/tan") || hasSuffix(rel, "plugin/tee") || hasSuffix(rel, "internal/logdb/tee") {
+			continue
+		}
+		n++
+		r.check(e.afterSuccessOf(s.(ssa.Instruction), fin, 2), rule, "ILogDB.ImportSnapshot in "+fname(fn)+" follows a successful FinalizeSnapshot", e.ipos(s),
+			"the snapshot directory is published (flag file, rename, directory sync) before the log store names it", "the log store record of the imported snapshot can be written before (or without) the snapshot directory having been published: a crash in between leaves the replica with a recorded snapshot that does not exist on disk")
+	}
+	r.floor(rule, n, 1)
+}
+
+// ruleOnDiskCursors (C08, C11, C20): the two cursors that keep an on-disk
+// state machine from being handed entries it already holds
+// (StateMachine.onDiskInitIndex, onDiskIndex) move
+//   - from Open()'s result (MPT-open-ondisk-index),
+//   - on the apply path behind both fail-stop assertions of setOnDiskIndex,
+//   - from a snapshot's OnDiskIndex only after that snapshot's data was
+//     loaded into the state machine: a partial (shrunk / dummy / witness)
+//     snapshot carries no data and must leave them alone - otherwise the
+//     entries between the snapshot's on-disk index and what Open() returned
+//     are applied a second time (or skipped).
+func ruleOnDiskCursors(e *Engine, r *Report) {
+	rule := "WMW-ondisk-cursors"
+	ssOD := r.needField("raftpb", "Snapshot", "OnDiskIndex")
+	load := r.need("(*internal/rsm.StateMachine).load")
+	mOpen := r.needMethod("internal/rsm", "IManagedStateMachine", "Open")
+	if ssOD == nil || load == nil || mOpen == nil {
+		return
+	}
+	n := 0
+	for _, fnm := range []string{"onDiskInitIndex", "onDiskIndex"} {
+		fld := r.needField("internal/rsm", "StateMachine", fnm)
+		if fld == nil {
+			continue
+		}
+		for _, w := range e.FieldWrites(fld) {
+			if w.Kind != "store" && w.Kind != "init" {
+				continue
+			}
+			if c, isC := w.Val.(*ssa.Const); isC && (c.Value == nil || c.Value.ExactString() == "0") {
+				continue
+			}
+			n++
+			c := "StateMachine." + fnm + " written in " + fname(w.Fn)
+			switch {
+			case e.dependsOn(w.Val, func(x ssa.Value) bool {
+				cl, ok := x.(*ssa.Call)
+				return ok && e.IsMethodCall(cl, mOpen)
+			}, 0):
+				r.ok(rule, c+" (from Open's result)", e.ipos(w.Instr), "the index the user state machine reported")
+			case e.dependsOn(w.Val, func(x ssa.Value) bool { return fieldV(ssOD)(x) }, 0):
+				r.check(e.afterSuccessOf(w.Instr, load, 3), rule, c+" from a snapshot's OnDiskIndex only after the snapshot was loaded", e.ipos(w.Instr),
+					"the store (or every caller of its function) follows a successful load of the snapshot", "the on-disk cursor is moved to a snapshot's OnDiskIndex on a path that did not load that snapshot into the state machine (partial snapshot, skipped recovery): entries the state machine already holds are re-applied, or entries it lacks are skipped")
+			default:
+				// apply path: behind the two assertions
+				init := r.needField("internal/rsm", "StateMachine", "onDiskInitIndex")
+				cur := r.needField("internal/rsm", "StateMachine", "onDiskIndex")
+				if init == nil || cur == nil {
+					continue
+				}
+				isParam := func(v ssa.Value) bool { _, ok := stripConv(v).(*ssa.Parameter); return ok }
+				r.guard(rule, c+" (apply path)", w.Instr,
+					reqCmp("first index > onDiskInitIndex (fail-stop otherwise)", ">", isParam, fieldV(init)),
+					reqCmp("first index > onDiskIndex (fail-stop otherwise)", ">", isParam, fieldV(cur)))
+			}
+		}
+	}
+	r.floor(rule, n, 4)
+}
